@@ -31,6 +31,13 @@ def rand_name(r, used, lo=1, hi=18, prefix=""):
         return s
 
 
+def _prod(xs):
+    n = 1
+    for x in xs:
+        n *= x
+    return n
+
+
 def align(x, a):
     return (x + a - 1) // a * a
 
@@ -282,6 +289,11 @@ def gen_project(r, feat=None):
                     dims = [r.randint(1, lim), r.randint(1, max(1, lim // 2))]
                 else:
                     dims = [r.randint(1, max(1, lim // 2)), r.randint(1, 4), r.randint(1, 3)]
+            # keep a single tag below 64 kB so that every transfer stays within the run budgets
+            es_ = type_size(project, tn)
+            while dims and es_ * _prod(dims) > 65536:
+                k = max(range(len(dims)), key=lambda i: dims[i])
+                dims[k] = max(1, dims[k] // 2)
             t = {"name": nm, "scope": scope, "type": tn, "dims": dims}
         t["kind"] = "user"
         t["access"] = 0 if r.random() < 0.85 else r.choice((2, 3))
